@@ -41,7 +41,7 @@ RULE = ("case = one load under one fault: a fault sequence (enumerated), a kill 
         " Round-6 classes: the permission bits of the cache entry (group / others may read as far as the umask allows)."
         " Round-7 classes: a 'suspend' kind - a refreshing loader suspended at every line (quick: of the library's file; thorough: also tempfile / shutil / urllib) while a second loader runs to completion with downloading forbidden and with default flags; on a warm cache non-refreshing loaders of the concurrent rounds must not issue requests."
         " Round-8 classes: every loader process seeds the stdlib and NumPy global generators with the same constant (a reproducible script): names drawn from them repeat between the killed and the later run and between concurrent runs; pauses taken by other means than time.sleep are inconclusive.")
-REQUIRED_MONITORS = ["c19:suspend", "c19:entry_mode", "c19:fault_sequence", "c19:kill_line", "c19:kill_call", "c19:concurrent", "c19:flags", "c19:pairs",
+REQUIRED_MONITORS = ["c19:kill_delivered", "c19:suspend", "c19:entry_mode", "c19:fault_sequence", "c19:kill_line", "c19:kill_call", "c19:concurrent", "c19:flags", "c19:pairs",
                      "c19:followup_after_kill"]      # c19:kill_syscall / c19:syscall_error need strace (skipped + noted if absent)
 ASSUMPTIONS = ["process crash only (no fsync / power loss claims)", "the fake opener stands for the network"]
 TIMEOUT = {"quick": 900, "thorough": 7200}
@@ -379,6 +379,11 @@ def run_kill(ctx, spec):
             killed = out is None
             if rc == "timeout":
                 raise RuntimeError("kill child timed out")
+            if not killed and what == mode and k <= n:
+                # the kill point lies inside the load, yet the child answered: the kill was never delivered
+                raise RuntimeError("kill at %s event %d of %d was not delivered (inconclusive)" % (mode, k, n))
+            if killed:
+                ctx.monitor("c19:kill_delivered")
             if killed and rc not in (-9, 137):
                 raise RuntimeError("kill child ended with rc=%s without result: %s" % (rc, err))
             judge_after_kill(ctx, cid, cfg, url, rows, home, scratch, killed, out, ti)
